@@ -23,7 +23,7 @@ from ..common import Result, Violation
 
 META = dict(
     level='Lean theorems over a model of the EP state and of every update branch of tsdate/variational.py with the projection functions as arbitrary parameters (all inputs, edge orders, iteration counts, dampings, max_shape > 1, phased/unphased, with/without regularisation): posterior = scale * (sum of messages + node factors) is an invariant; _rescale_factors leaves posteriors unchanged and resets scales; fixed nodes are never written. Model tied to the numba code bit-for-bit at Float after every iteration (projections answered by the real approx wrappers). Full in exact arithmetic; rounding is outside the theorem (observed 1e-16).',
-    note='Lean kernel + {propext, Classical.choice, Quot.sound}; sampled bit-exact correspondence of the hand-written model incl. the EM loop of propagate_prior; the driver loop that sequences prep/stepApply around the oracle call is trusted (12 lines); theorems are about exact arithmetic',
+    note='Lean kernel + {propext, Classical.choice, Quot.sound}; sampled bit-exact correspondence of the hand-written model incl. the EM loop of propagate_prior; the driver executes the monadic iterate of the model itself (proved equal to iterate at the identity monad); only its three effect handlers are trusted; theorems are about exact arithmetic',
     technique='loop invariant by induction over edge order and iterations, projections as parameters + bit-exact replay against the numba kernels',
     ref='§3 C21',
 )
@@ -118,21 +118,29 @@ def one_case(L, rng, cid, res, stats, raw_perturb=False):
     record(res, stats, st, opts, label, out, impl_states, source)
 
 
-def rat_case(L, rng, cid, res, stats):
-    """The model over Rat: the identity must hold *exactly* (this exercises the theorem's statement on the model)."""
+def rat_case(holder, rng, cid, res, stats):
+    """The model over Rat: the identity must hold *exactly* (this exercises the theorem's statement on the model).
+    Exact rationals can grow very fast, so inputs are tiny and each run has its own driver with a 20 s watchdog."""
     import tsdate.variational as V
     ts, kw, label = E.gen_input(rng, want=str(rng.choice(["plain", "unphased", "twin", "historical"])))
-    if ts.num_mutations == 0 or ts.num_edges == 0 or ts.num_edges > 30:
+    if ts.num_mutations == 0 or ts.num_edges == 0 or ts.num_edges > 16:
         return
     try:
         ep = V.ExpectationPropagation(ts, **kw)
     except Exception:  # noqa: BLE001
         return
     st = E.static_of(ep)
-    opts = dict(max_shape=float(rng.choice([2.0, 10.0])), regularise=bool(rng.random() < 0.5), iters=2)
-    out = E.run_model(L, cid, st, mode="rat", **opts)
+    opts = dict(max_shape=float(rng.choice([2.0, 10.0])), regularise=bool(rng.random() < 0.5), iters=1)
     res.evaluations += 1
     stats["rat_runs"] += 1
+    if holder.get("L") is None:
+        holder["L"] = E.LeanEP()
+    try:
+        out = E.run_model(holder["L"], cid, st, mode="rat", timeout=20, **opts)
+    except E.LeanTimeout:
+        stats["rat_timeouts"] = stats.get("rat_timeouts", 0) + 1
+        holder["L"] = None            # the driver was killed by the watchdog
+        return
     if out["status"] == "DONE" and not all(s["exact"] for s in out["states"]):
         res.corr_failures.append(Violation("rat-model-identity-inexact",
                                            "Lean model over Rat: posterior != scale*assemble exactly (theorem C21 "
@@ -205,11 +213,14 @@ def run(ctx):
         for i in range(ctx.n(20, 500)):
             one_case(L, rng, 100000 + i, res, stats, raw_perturb=True)
         wall["B_perturbed"] = round(time.time() - t0, 1)
-        t0 = time.time()
-        rng2 = ctx.rng(2)
-        for i in range(ctx.n(4, 60)):
-            rat_case(L, rng2, 200000 + i, res, stats)
-        wall["B_rat"] = round(time.time() - t0, 1)
+    t0 = time.time()
+    rng2 = ctx.rng(2)
+    holder = {}
+    for i in range(ctx.n(3, 40)):
+        rat_case(holder, rng2, 200000 + i, res, stats)
+    if holder.get("L") is not None:
+        holder["L"].close()
+    wall["B_rat"] = round(time.time() - t0, 1)
     t0 = time.time()
     rng3 = ctx.rng(3)
     for _ in range(ctx.n(12, 400)):
